@@ -10,6 +10,7 @@ You can obtain one at http://mozilla.org/MPL/2.0/.
 
 #include "libfive/render/brep/progress.hpp"
 #include "libfive/render/brep/object_pool.hpp"
+#include "libfive/verif.hpp"
 
 namespace libfive {
 
@@ -131,6 +132,8 @@ void ObjectPool<T, Ts...>::reset(unsigned workers,
     {
         workers = workers_needed;
     }
+    LIBFIVE_VERIF_POINT(verif::SITE_RESET_POOL, workers,
+            allocated_blocks.size() + fresh_blocks.size(), this);
 
     std::vector<std::future<void>> futures;
     futures.resize(workers);
@@ -148,6 +151,7 @@ void ObjectPool<T, Ts...>::reset(unsigned workers,
                     if (progress_watcher) {
                         progress_watcher->tick();
                     }
+                    LIBFIVE_VERIF_POINT(verif::SITE_RESET_TICK, 0, j, this);
                     T::operator delete[](allocated_blocks[j]);
                 }
 
@@ -158,6 +162,7 @@ void ObjectPool<T, Ts...>::reset(unsigned workers,
                 if (progress_watcher) {
                     progress_watcher->tick();
                 }
+                LIBFIVE_VERIF_POINT(verif::SITE_RESET_TICK, 1, j, this);
                 T::operator delete [](fresh_blocks[j].first);
             }
         });
